@@ -160,3 +160,83 @@ Theorem decide_hashes_the_rest intr to_obf d :
 Proof.
   intros Hu Hs Ht. unfold decide. rewrite Hu, Hs, Ht. destruct (o_kind d); cbn; auto.
 Qed.
+
+(* ================= linkname rewriting agrees with the naming decision ================= *)
+From Verif Require Import Model.Linkname.
+
+Section LN.
+  Variable lookup_pkg : str -> lookup_result.
+  Variable hname : str -> str -> str.
+  Variable ipath : str -> str.
+  Variable intr : list (str * list str).
+  Variable cur_path : str.
+  Variable cur_obf : bool.
+  Variable exported : str -> bool.
+
+  Lemma cut_dot_nodot s : existsb (N.eqb DOT) s = false -> cut_dot s = None.
+  Proof.
+    induction s as [|c r IH]; [reflexivity|]. cbn [existsb cut_dot]. intros H.
+    apply orb_false_iff in H as [H1 H2]. rewrite N.eqb_sym in H1. rewrite H1, (IH H2). reflexivity.
+  Qed.
+
+  Lemma cut_dot_app a b : existsb (N.eqb DOT) a = false -> cut_dot (a ++ DOT :: b) = Some (a, b).
+  Proof.
+    induction a as [|c a IH]; intros H; cbn [app cut_dot].
+    - reflexivity.
+    - cbn [existsb] in H. apply orb_false_iff in H as [H1 H2]. rewrite N.eqb_sym in H1. rewrite H1, (IH H2). reflexivity.
+  Qed.
+
+  (* a plain function target "path.fname": path has no dot-prefix that is a package (here: no dot
+     at all, the common case of std and single-element paths is covered by the oracle stream for
+     dotted paths), fname is an identifier without dots *)
+  Theorem linkname_function_agrees local path fname :
+    existsb (N.eqb DOT) path = false -> existsb (N.eqb DOT) fname = false ->
+    ends_with s_under_test path = false ->
+    lookup_pkg path = Found true -> intrinsic intr path fname = false ->
+    beq (path ++ DOT :: fname) s_main_main = false ->
+    snd (linkname_rewrite lookup_pkg hname ipath intr cur_path cur_obf exported local (path ++ DOT :: fname))
+    = ipath path ++ [DOT] ++ hname path fname.
+  Proof.
+    intros Hp Hf Ht Hl Hi Hmm.
+    assert (Hne : forall new, new <> [] ->
+      linkname_rewrite lookup_pkg hname ipath intr cur_path cur_obf exported local new =
+      (if negb (existsb (N.eqb DOT) new) then (directive_local_name hname intr cur_path cur_obf local, new)
+       else if beq new s_main_main || beq new s_main_inittask || beq new s_runtime_inittask then (directive_local_name hname intr cur_path cur_obf local, new)
+       else match find_pkg lookup_pkg (S (length new)) [] new with
+            | inl (Some (path, foreign, t)) =>
+                if negb t || intrinsic intr path foreign then (directive_local_name hname intr cur_path cur_obf local, new)
+                else (directive_local_name hname intr cur_path cur_obf local, ipath path ++ [DOT] ++ rewrite_foreign hname exported path foreign)
+            | _ => (directive_local_name hname intr cur_path cur_obf local, new)
+            end)).
+    { intros new Hn. destruct new; [congruence | reflexivity]. }
+    rewrite Hne by (destruct path; discriminate). clear Hne.
+    assert (Hd : existsb (N.eqb DOT) (path ++ DOT :: fname) = true).
+    { rewrite existsb_app. cbn [existsb]. change (DOT =? DOT) with true. rewrite orb_true_r. reflexivity. }
+    rewrite Hd. cbn [negb]. rewrite Hmm.
+    assert (H2 : beq (path ++ DOT :: fname) s_main_inittask = false).
+    { apply not_true_is_false. intros Hb. apply beq_eq in Hb.
+      assert (Hc : cut_dot (path ++ DOT :: fname) = cut_dot s_main_inittask) by (rewrite Hb; reflexivity).
+      rewrite (cut_dot_app path fname Hp) in Hc. vm_compute in Hc. injection Hc as _ Hc. subst fname. discriminate. }
+    assert (H3 : beq (path ++ DOT :: fname) s_runtime_inittask = false).
+    { apply not_true_is_false. intros Hb. apply beq_eq in Hb.
+      assert (Hc : cut_dot (path ++ DOT :: fname) = cut_dot s_runtime_inittask) by (rewrite Hb; reflexivity).
+      rewrite (cut_dot_app path fname Hp) in Hc. vm_compute in Hc. injection Hc as _ Hc. subst fname. discriminate. }
+    rewrite H2, H3. cbn [orb].
+    cbn [find_pkg]. rewrite (cut_dot_app path fname Hp). cbn [app]. rewrite Ht, Hl. cbn [negb orb].
+    rewrite Hi. cbn [snd]. unfold rewrite_foreign. rewrite (cut_dot_nodot fname Hf). reflexivity.
+  Qed.
+
+  (* targets in packages garble does not know, or does not obfuscate, are left byte for byte *)
+  Theorem linkname_unknown_unchanged local new :
+    (forall p, lookup_pkg p = NotFound) ->
+    snd (linkname_rewrite lookup_pkg hname ipath intr cur_path cur_obf exported local new) = new.
+  Proof.
+    intros Hnf. unfold linkname_rewrite. destruct new as [|c r]; [reflexivity|].
+    destruct (negb _); [reflexivity|]. destruct (_ || _); [reflexivity|].
+    assert (H : forall fuel pre rest, find_pkg lookup_pkg fuel pre rest = inl None \/ find_pkg lookup_pkg fuel pre rest = inr false).
+    { induction fuel as [|f IH]; intros pre rest; [right; reflexivity|]. cbn [find_pkg].
+      destruct (cut_dot rest) as [[a b]|]; [|left; reflexivity].
+      destruct (ends_with _ _); [apply IH|]. rewrite Hnf. apply IH. }
+    destruct (H (S (length (c :: r))) [] (c :: r)) as [-> | ->]; reflexivity.
+  Qed.
+End LN.
